@@ -67,13 +67,16 @@ def run_case(spec, ctx):
         for _ in range(4):
             n = int(rng.integers(1, 5))
             xw, yw = np.zeros(n), np.zeros(n)
+            rho = float(loguniform(rng, 1e-3, 1e3))                 # one prox parameter for the whole loop, as in a solver
+            act = bool(rng.random() < 0.3)                          # both branches of the implicit residual, whatever the true active set is
+            z = _z(rng)
             for it in range(4):
                 xw[:] = _vec(rng, n); yw[:] = _vec(rng, n)
-                z, rho = _z(rng), float(loguniform(rng, 1e-3, 1e3))
+                if rng.random() < 0.3:
+                    z = _z(rng)
                 ctx.mon("purity")
                 zz = np.array([z])
                 try:
-                    act = bool(rng.random() < 0.3)      # both branches of the implicit residual, whatever the true active set is
                     got = [np.array(ball.prox(xw, z)), np.array(ball.residual(xw, yw, zz, rho, act)), *[np.array(J) for J in ball.Jacobian(xw, yw, zz, rho, act)]]
                     fresh = Sphere(ball.r)
                     ref = [np.array(fresh.prox(xw.copy(), z)), np.array(fresh.residual(xw.copy(), yw.copy(), zz.copy(), rho, act)),
